@@ -36,7 +36,10 @@ def check(run):
         run.guard("C13.6.priority-suffix", cfg + "/slices", lambda: rule_priority_slices(run, F, cfg))
         run.guard("C13.6.priority-suffix", cfg + "/ties", lambda: rule_tie_break(run, F, cfg))
         run.guard("C13.5.lookup", cfg + "/registration", lambda: rule_registration_atomic(run, F, cfg))
+        run.guard("C13.5.lookup", cfg + "/use_resources", lambda: rule_use_resources(run, F, cfg))
         from . import wire_keys as _wk
+        run.guard("C13.7.resource-wire-keys", cfg + "/mime", lambda: run.floor(
+            "C13.7.resource-wire-keys", f"media types compared [{cfg}]", _wk.rule_mime(run, "C13.7.resource-wire-keys", F, cfg), 22))
         run.guard("C13.7.resource-wire-keys", cfg, lambda: run.floor(
             "C13.7.resource-wire-keys", f"resource keys / variants compared [{cfg}]",
             _wk.rule_keys(run, "C13.7.resource-wire-keys", F, cfg, _wk.RESOURCE, _wk.RESOURCE_VARIANTS,
@@ -430,6 +433,32 @@ def rule_tie_break(run, F, cfg):
            "a matching redirect replaces the best so far iff its priority is greater, or equal and its resource name compares "
            f"strictly against the current name: the result does not depend on the visiting order (differences: {bad[:2]}; "
            f"priority variables {pa} / {pb})", site=f.loc(sw[0]), config=cfg)
+
+
+def rule_use_resources(run, F, cfg):
+    """`Engine::use_resources` sets the engine's resources to ONLY the ones given: the storage is replaced by a storage
+    built from the argument. Adding the new resources to the old storage instead keeps resources that are no longer in
+    the bundle (a redirect appears where there must be none; a resource that gained a permission keeps being served
+    without it) and rejects changed ones as duplicates."""
+    f = F.fn("engine::Engine::use_resources")
+    run.touched(f)
+    writes = [(f.vexpr_place(st["pl"]), f.expr_rvalue(st["rv"])) for b, i, st in f.statements() if st["k"] == "assign" and st["pl"]["p"]]
+    calls = [strip_generics(t["callee"]) for b, t in f.calls()]
+    cl = [c for c in F.closures_of(f.name)]
+    ok = writes == [("$self.resources", "resources::resource_storage::ResourceStorage::from_resources(arg:resources)")] \
+        and not any(c.endswith("::add_resource") for c in calls) \
+        and not any(cc.calls(r"add_resource$") for cc in cl)
+    run.ob("C13.5.lookup", "use_resources-replaces-the-storage", ok,
+           f"Engine::use_resources assigns self.resources = ResourceStorage::from_resources(resources) and nothing else "
+           f"(field writes {writes}; calls {calls})", site=f.loc(0), config=cfg)
+    fr = F.fn("resources::resource_storage::ResourceStorage::from_resources")
+    run.touched(fr)
+    fresh = [fr.expr_operand(t["args"][0]) for b, t in fr.calls(r"ResourceStorage::add_resource$")] + \
+            [c.expr_operand(t["args"][0]) for c in F.closures_of(fr.name) for b, t in c.calls(r"ResourceStorage::add_resource$")]
+    started = [strip_generics(t["callee"]) for b, t in fr.calls(r"Default>::default$|ResourceStorage::default$|::new$")]
+    run.ob("C13.5.lookup", "from_resources-starts-empty", bool(fresh) and bool(started),
+           f"ResourceStorage::from_resources fills a fresh (default) storage through add_resource ({started}; receivers {fresh})",
+           site=fr.loc(0), config=cfg)
 
 
 def rule_registration_atomic(run, F, cfg):
